@@ -363,7 +363,8 @@ func (d *csDriver) Run(x *sched.Exec, raw json.RawMessage) json.RawMessage {
 		d.mu.Unlock()
 		for _, h := range hs {
 			if !h.released {
-				d.release(h, "ctl")
+				h := h
+				x.Safe("ctl", func() { d.release(h, "ctl") })
 			}
 		}
 		x.Drain()
